@@ -253,6 +253,26 @@ Section LapEmbed.
 End LapEmbed.
 
 (* ---------------------------------------------------------------------- *)
+(*  LaplacianEigenmaps::embed() as ONE function: neighbour search (oracle)  *)
+(*  -> compute_laplacian -> generalised solver (oracle: it is handed the    *)
+(*  sparse matrix and the diagonal D and answers eigenvectors/eigenvalues)  *)
+(*  -> column selection; only `.first` is returned.                         *)
+(* ---------------------------------------------------------------------- *)
+Section LapMethodEmbed.
+  Context {F : Type} {Fo : FieldOps F}.
+  Variable dist : nat -> nat -> F.
+  Variable width : F.
+  Variable expo : F -> F.
+  Definition le_method_embed (search : nat -> list (list nat)) (kreq n d : nat)
+             (solver : mat F -> vec F -> mat F * vec F) : option (mat F) :=
+    match le_method_laplacian dist width expo search kreq n with
+    | LOk (ts, D) =>
+        let '(V, _) := solver (mat_of_triplets ts) (vof D) in le_embedding n d V
+    | LOOB _ _ _ => None
+    end.
+End LapMethodEmbed.
+
+(* ---------------------------------------------------------------------- *)
 (*  methods/diffusion_map.hpp embed():                                      *)
 (*    result = eigendecomposition_via(LargestEigenvalues, M, d + 1)         *)
 (*    embedding = result.first.leftCols(d)                                  *)
@@ -297,3 +317,17 @@ Section DmEmbed.
     | None => None
     end.
 End DmEmbed.
+
+(* DiffusionMap::embed() as ONE function: compute_diffusion_matrix -> self-adjoint solver (oracle) ->
+   dm_embedding (selection, lambda^t scaling, division by the top column) *)
+Section DmMethodEmbed.
+  Context {F : Type} {Fo : FieldOps F}.
+  Variable dist : nat -> nat -> F.
+  Variable width : F.
+  Variable expo : F -> F.
+  Variable sqrto : F -> F.
+  Definition dm_method_embed (n d t : nat) (solver : mat F -> mat F * vec F) (powo : F -> nat -> F)
+    : option (mat F) :=
+    let '(V, lam) := solver (dm_matrix dist width expo sqrto n) in
+    dm_embedding n d t V lam powo.
+End DmMethodEmbed.
